@@ -5,10 +5,7 @@ import MxModel.Proofs.EditMachineInputs
 
 `CIG` = `CIW` without the clause "no model-level reference".  `stepG_cig`: one operation of `stepG` –
 the ten structural operations with `clearingG`, `model.x = v`, `del model.x`, the value-layer
-operations.  Hypotheses per step: the regime `WF` of the definitions in force (as for `step_ciw`) and
-`NoOrphanReaders`: when the step DELETES a space, nothing held was read from a model-level reference
-THROUGH that space (an attribute path through a deleted space is an object-valued reference to a deleted
-space: outside the machine; the Boolean `covered` makes the same exemption).
+operations.  Hypothesis per step: the regime `WF` of the definitions in force (as for `step_ciw`).
 -/
 namespace MxModel.Edit
 open MxModel.Exec MxModel.C02 MxModel.SM
@@ -22,13 +19,6 @@ structure CIG (w : W) : Prop where
 
 theorem CIW.toCIG {w : W} (h : CIW P lt w) : CIG P lt w := ⟨h.inv, h.alloc, h.ci⟩
 
-/-- when the step deletes a space: no recorded reader of a slot `(q, x)` of a deleted space `q` through
-which the model-level reference `x` is seen -/
-def NoOrphanReaders (w : W) : OpG → Prop
-  | .op (.struct o) => ∀ st', w.sm.apply P.kw o = some st' → ∀ q x, w.sm.has q = true → st'.has q = false →
-      w.sm.mem .refs q x = none → x ∈ w.sm.globals → NoRg w.ex (w.tabs.rid q x)
-  | _ => True
-
 def runG (w : W) (ops : List OpG) : W := ops.foldl (stepG P) w
 
 theorem stepG_value (w : W) (o : Op) (hv : ∀ o', o ≠ .struct o') : stepG P w (.op o) = step P w o := by
@@ -39,8 +29,8 @@ theorem stepG_value (w : W) (o : Op) (hv : ∀ o', o ≠ .struct o') : stepG P w
 variable {P lt}
 
 /-- **a structural operation of `stepG` keeps the invariant** -/
-theorem stepG_struct_cig (w : W) (o : SM.Op) (hw : WF (w.env P) lt) (h : CIG P lt w)
-    (horph : NoOrphanReaders P w (.op (.struct o))) : CIG P lt (stepG P w (.op (.struct o))) := by
+theorem stepG_struct_cig (w : W) (o : SM.Op) (hw : WF (w.env P) lt) (h : CIG P lt w) :
+    CIG P lt (stepG P w (.op (.struct o))) := by
   simp only [stepG]
   split
   · rename_i hsup
@@ -53,12 +43,11 @@ theorem stepG_struct_cig (w : W) (o : SM.Op) (hw : WF (w.env P) lt) (h : CIG P l
       have hci' := ci_ext P hext h.alloc hw h.ci
       have ha' := allocOK_grow w.tabs st' h.alloc.slots
       refine ⟨inv_apply P.kw w.sm st' o h.inv hop, ha', ?_⟩
-      refine struct_ci_orph P hw' hci' (coversS_clearingG P.kw _ o h.inv hsup hop ha') ?_
-      rintro q x ⟨hq, hq', hm, hg⟩
-      have hx : x ∈ w.sm.globals := by simpa using hg
-      have := horph st' hop q x hq hq' hm hx
-      rw [hext.rid q x (h.alloc.gslots q x ((has_iff_ids _ _).mp hq) hx)]
-      exact this
+      refine struct_ci P hw' hci' (coversG_clearingG P.kw _ o h.inv hsup hop ha' ?_)
+      intro q x hq hx
+      obtain ⟨l, hl, _⟩ := hext.refs
+      rw [hl]
+      exact List.mem_append_left _ (h.alloc.gslots q x hq hx)
   · exact h
 
 /-- **`model.x = v` keeps the invariant** -/
@@ -101,14 +90,14 @@ theorem stepG_delGlobal_cig (w : W) (x : String) (hw : WF (w.env P) lt) (h : CIG
     rw [contains_of_iff (l' := st'.globals) (l := w.sm.globals) (by rw [hgl y]; simp [hy])]
 
 /-- **one operation of the machine with model-level references keeps the invariant** -/
-theorem stepG_cig (ho : StrictOrder lt) (w : W) (op : OpG) (hw : WF (w.env P) lt) (h : CIG P lt w)
-    (horph : NoOrphanReaders P w op) : CIG P lt (stepG P w op) := by
+theorem stepG_cig (ho : StrictOrder lt) (w : W) (op : OpG) (hw : WF (w.env P) lt) (h : CIG P lt w) :
+    CIG P lt (stepG P w op) := by
   cases op with
   | setGlobal x v => exact stepG_setGlobal_cig w x v hw h
   | delGlobal x => exact stepG_delGlobal_cig w x hw h
   | op o =>
     cases o with
-    | struct o => exact stepG_struct_cig w o hw h horph
+    | struct o => exact stepG_struct_cig w o hw h
     | eval q n key =>
       show CIG P lt (step P w (.eval q n key))
       simp only [step]
@@ -132,11 +121,10 @@ theorem stepG_cig (ho : StrictOrder lt) (w : W) (op : OpG) (hw : WF (w.env P) lt
 
 variable (P lt)
 
-/-- the definitions stay in the regime after every operation, and no space is deleted through which a
-model-level reference was read -/
+/-- the definitions stay in the regime after every operation -/
 def AdmissibleG : W → List OpG → Prop
   | _, [] => True
-  | w, op :: ops => NoOrphanReaders P w op ∧ WF ((stepG P w op).env P) lt ∧ AdmissibleG (stepG P w op) ops
+  | w, op :: ops => WF ((stepG P w op).env P) lt ∧ AdmissibleG (stepG P w op) ops
 
 theorem cig_init (slots : List (Path × String)) : CIG P lt (W.init slots) :=
   ⟨inv_empty, allocOK_init slots, CI.empty _ lt⟩
@@ -159,8 +147,8 @@ theorem runG_cig (ho : StrictOrder lt) : ∀ (ops : List OpG) (w : W), WF (w.env
   | nil => intro w hw h _; exact ⟨h, hw⟩
   | cons op rest ih =>
     intro w hw h hadm
-    obtain ⟨h1, h2, h3⟩ := hadm
-    exact ih (stepG P w op) h2 (stepG_cig ho w op hw h h1) h3
+    obtain ⟨h2, h3⟩ := hadm
+    exact ih (stepG P w op) h2 (stepG_cig ho w op hw h) h3
 
 /-! ## the live run and the run without the evaluations -/
 
@@ -290,70 +278,19 @@ theorem stepG_eval_sim (ho : StrictOrder lt) (w1 w2 : W) (q : Path) (n : String)
   rw [a3, inpOf_step ho hw h1.ci r1, hs.inp]
   rfl
 
-theorem noRg_setValue {env : Env} {s : Exec.St} (he : EdgeOK s) (n : Node) (v : Val) (r : RefId) (h : NoRg s r) :
-    NoRg (s.setValue env n v).1 r := by
-  unfold Exec.St.setValue
-  split
-  · exact h
-  · obtain ⟨R, hc, _⟩ := clr_clearValueAt s (fun _ => False) he n true
-    have h1 := h.of_clr hc
-    have hrg : ∀ s1 : Exec.St, (({ s1 with data := insert s1.data n v } : Exec.St).addNode (.elem n)).rg = s1.rg := by
-      intro s1; unfold Exec.St.addNode; split <;> rfl
-    intro m hm
-    have hm' : (r, m) ∈ (({ (s.clearValueAt n true) with data := insert (s.clearValueAt n true).data n v } : Exec.St).addNode
-        (.elem n)).rg := hm
-    rw [hrg] at hm'
-    exact h1 m hm'
-
-/-- an operation that is no evaluation adds no edge to the reference graph -/
-theorem noRg_stepG (w : W) (op : OpG) (hev : isEvalG op = false) (hw : WF (w.env P) lt) (h : CIG P lt w)
-    (hno : ∀ r, NoRg w.ex r) : ∀ r, NoRg (stepG P w op).ex r := by
-  intro r
-  rcases opG_cases op with ⟨o, rfl, hv⟩ | hv
-  · rw [stepG_value P w o hv]
-    have he := h.ci.gi.edgeOK
-    cases o with
-    | struct o' => exact absurd rfl (hv o')
-    | eval q n key => cases hev
-    | setValue q n key v =>
-      simp only [step]
-      split
-      · exact noRg_setValue he _ v r (hno r)
-      · exact hno r
-    | clearAt q n key =>
-      obtain ⟨R, hc, _⟩ := clr_clearValueAt w.ex (fun _ => False) he (w.tabs.cid q n, key) true
-      exact (hno r).of_clr hc
-    | clear q n =>
-      obtain ⟨R, hc, _⟩ := clr_clearAllValues w.ex (fun _ => False) he (w.tabs.cid q n) false
-      exact (hno r).of_clr hc
-    | clearAll q n =>
-      obtain ⟨R, hc, _⟩ := clr_clearAllValues w.ex (fun _ => False) he (w.tabs.cid q n) true
-      exact (hno r).of_clr hc
-  · rcases stepG_shape (P := P) w op hv with href | ⟨st', gv', cl, hall⟩
-    · rw [href w rfl]; exact hno r
-    · obtain ⟨_, _, e3⟩ := hall w rfl rfl
-      rw [e3]
-      have hext := ext_grow w.tabs st'
-      have hw' := wf_ext P hext h.alloc hw
-      have hci' := ci_ext P hext h.alloc hw h.ci
-      exact (doClears_facts hw'.scoping hw'.noCatch cl w.ex hci').2.2.2.1 r (hno r)
-
 /-- **the live run and the run without the evaluations** end with the same structure, identities and
-inputs; both satisfy the invariant.  (The hypotheses are about the LIVE run only: a slot that has no
-recorded reader in the live run has none in the run without evaluations – there the reference graph is
-empty, `NoRg` is proved from `rg = []`.) -/
+inputs; both satisfy the invariant -/
 theorem runG_sim (ho : StrictOrder lt) : ∀ (ops : List OpG) (w1 w2 : W), WF (w1.env P) lt →
     CIG P lt w1 → CIG P lt w2 → RgNoInputs w1.ex → RgNoInputs w2.ex → Sim w1 w2 → AdmissibleG P lt w1 ops →
-    (∀ r, NoRg w2.ex r) →
     Sim (runG P w1 ops) (runG P w2 (noEvalsG ops)) ∧ CIG P lt (runG P w1 ops) ∧
       CIG P lt (runG P w2 (noEvalsG ops)) ∧ WF ((runG P w1 ops).env P) lt := by
   intro ops
   induction ops with
-  | nil => intro w1 w2 hw h1 h2 _ _ hs _ _; exact ⟨hs, h1, h2, hw⟩
+  | nil => intro w1 w2 hw h1 h2 _ _ hs _; exact ⟨hs, h1, h2, hw⟩
   | cons op rest ih =>
-    intro w1 w2 hw h1 h2 r1 r2 hs hadm hno
-    obtain ⟨a1, a2, a3⟩ := hadm
-    have c1 := stepG_cig ho w1 op hw h1 a1
+    intro w1 w2 hw h1 h2 r1 r2 hs hadm
+    obtain ⟨a2, a3⟩ := hadm
+    have c1 := stepG_cig ho w1 op hw h1
     have g1 := stepG_rg w1 op hw h1 r1
     by_cases hev : isEvalG op = true
     · have : noEvalsG (op :: rest) = noEvalsG rest := by simp [noEvalsG, List.filter, hev]
@@ -361,22 +298,15 @@ theorem runG_sim (ho : StrictOrder lt) : ∀ (ops : List OpG) (w1 w2 : W), WF (w
       cases op with
       | op o =>
         cases o with
-        | eval q n key => exact ih _ w2 a2 c1 h2 g1 r2 (stepG_eval_sim ho w1 w2 q n key hw h1 r1 hs) a3 hno
+        | eval q n key => exact ih _ w2 a2 c1 h2 g1 r2 (stepG_eval_sim ho w1 w2 q n key hw h1 r1 hs) a3
         | _ => cases hev
       | _ => cases hev
     · have hev' : isEvalG op = false := by simpa using hev
       have : noEvalsG (op :: rest) = op :: noEvalsG rest := by simp [noEvalsG, List.filter, hev']
       rw [this]
       have hw2 : WF (w2.env P) lt := by rw [hs.env_eq P]; exact hw
-      have o2 : NoOrphanReaders P w2 op := by
-        cases op with
-        | op o =>
-          cases o with
-          | struct o' => intro _ _ _ _ _ _ _ _; exact hno _
-          | _ => trivial
-        | _ => trivial
-      have c2 := stepG_cig ho w2 op hw2 h2 o2
+      have c2 := stepG_cig ho w2 op hw2 h2
       have g2 := stepG_rg w2 op hw2 h2 r2
-      exact ih _ _ a2 c1 c2 g1 g2 (stepG_sim ho w1 w2 op hw h1 h2 r1 r2 hs) a3 (noRg_stepG w2 op hev' hw2 h2 hno)
+      exact ih _ _ a2 c1 c2 g1 g2 (stepG_sim ho w1 w2 op hw h1 h2 r1 r2 hs) a3
 
 end MxModel.Edit
